@@ -596,9 +596,10 @@ def _bool_instance(rng, ngroups):
             return shape, vs, groups
         if shape == "3sat" and rng.random() < 0.5:
             shape = "mix"
-    vs = ["v0", "v1"]
-    return "fallback", vs, [("v", "v0"), ("or", [("not", ("v", "v0")), ("v", "v1")]), ("not", ("v", "v1"))][:max(2, ngroups)] if ngroups >= 3 else \
-        ("fallback", vs, [("v", "v0"), ("not", ("v", "v0"))])[1:]
+    v0, v1 = ("v", "v0"), ("v", "v1")
+    if ngroups >= 3:
+        return "fallback", ["v0", "v1"], [v0, ("or", [("not", v0), v1]), ("not", v1)]
+    return "fallback", ["v0", "v1"], [v0, ("not", v0)]
 
 
 def gen_boolsweep(rng, kgroups=None):
